@@ -285,7 +285,8 @@ func (f *Font) fontHExtentsWithFallback() font.FontExtents {
 	extents.Descender = float32(f.emScalefY(extents.Descender))
 	extents.LineGap = float32(f.emScalefY(extents.LineGap))
 	if !ok {
-		extents.Ascender = float32(f.YScale) * 0.8
+		// positions are integers : Harfbuzz truncates y_scale * .8
+		extents.Ascender = float32(Position(float64(f.YScale) * 0.8))
 		extents.Descender = extents.Ascender - float32(f.YScale)
 		extents.LineGap = 0
 	}
@@ -310,7 +311,8 @@ func (f *Font) ExtentsForDirection(direction Direction) font.FontExtents {
 		extents.Descender = float32(f.emScalefX(extents.Descender))
 		extents.LineGap = float32(f.emScalefX(extents.LineGap))
 		if !ok {
-			extents.Ascender = float32(f.XScale) * 0.5
+			// positions are integers : Harfbuzz uses x_scale / 2
+			extents.Ascender = float32(f.XScale / 2)
 			extents.Descender = extents.Ascender - float32(f.XScale)
 			extents.LineGap = 0
 		}
